@@ -22,7 +22,7 @@ def _emit_breaker_event(
 
     if on_metric is not None:
         try:
-            on_metric(event, 0, 0.0, tags)
+            on_metric(event, 0, 0.0, dict(tags))
         except Exception:
             pass
 
